@@ -47,7 +47,7 @@ CHECKS = {
    "Seeded search over tree shapes, tile heights, 0-3 faults of 20 network kinds + disk/config faults on any response class, concurrent clients, crash-restarts and log growth, plus a systematic placement of each network fault kind on each of the first 8 responses of a lookup for small logs; oracles evaluated at every Lookup return, WriteCache and WriteConfig, then a heal phase checks bounded liveness on the surviving durable state.",
    "Trusts SHA-256/Ed25519 and the reference implementations in sim/ref. A client that consumed a non-benign fault may fail later lookups (never return or store unauthenticated data); disk faults relax every client of the machine. Sampled, not exhaustive.", "4 (C01)"),
  "C13": ("sumdbsim", "deterministic simulation with fault injection: two equivocating log universes signed by the real key, clients sharing a config register, view switches, cross-log cache/config tampering, crash-restart, tape-driven scheduler; lineage and RFC 6962 consistency oracles",
-   "Seeded search over pairs of logs (any common prefix, either side smaller/equal/larger), tile heights, interleavings of clients sharing one configuration, restarts at arbitrary hook points, answers and cache entries from the other log, config rollback/replacement. Every WriteConfig is checked (signed, never smaller, contains the previous head by the reference), each client process may only ever accept one lineage, and every SecurityError message must hold both signed heads and a consistency proof that verifies by the reference RFC 9162 algorithm.",
+   "Seeded search over pairs of logs (any common prefix, either side smaller/equal/larger), tile heights, interleavings of clients sharing one configuration, restarts at arbitrary hook points, answers and cache entries from the other log, config rollback/replacement; split-view runs show the goroutines of one client process different logs at the same time; schedules drawn from random-switching and priority (PCT) policies. Every WriteConfig is checked (signed, never smaller, contains the previous head by the reference), each client process may only ever accept one lineage, and every SecurityError message must hold both signed heads and a consistency proof that verifies by the reference RFC 9162 algorithm.",
    "Nothing is demanded about which lineage wins while both are consistent with what the client holds. Sampled schedules and forks, not exhaustive. One genuine defect (F1: a lookup succeeds under the rejected tree after the same client reported the fork and its callback returned) is recorded in known_findings.json and reported as KNOWN-FINDING, exit 0; any other violation is reported.", "4 (C13), 8"),
  "C10": ("sumdbsim", "deterministic simulation of the TileReader seam: seeded fault injection on served tiles + placed single-fault sweep, reference RFC 6962 oracle",
    "Seeded search over (tree size, tile height, growth steps, index sets, multi-read histories, 0-3 tile corruptions of 10 kinds) plus a systematic placement of every single corruption kind on each fetched tile for small trees; oracle is an independent RFC 6962 implementation. Evidence over the sampled space, not proof.",
